@@ -423,3 +423,118 @@ mod diff_u {
         kani::cover!(true, "end of harness reached");
     }
 }
+
+// ------------------------------------------------------------------------------------------------
+// C02 (`--color-only` is line for line): how many output lines a hunk header produces. The real
+// `emit_hunk_header_line`, `write_hunk_header_raw` and
+// `write_line_of_code_with_optional_path_and_line_number` writing into a real `Vec<u8>`; the
+// drawing function is replaced by one that writes exactly one line.
+mod color_only {
+    use super::super::*;
+    use std::mem::MaybeUninit;
+    use std::ptr::addr_of_mut;
+
+    fn one_line(w: &mut dyn std::io::Write, _a: &str, _b: &str, _c: &str, _d: &crate::cli::Width, _s: Style, _t: ansi_term::Style) -> std::io::Result<()> {
+        w.write_all(b"H\n")
+    }
+    fn stub_get_draw_function(_d: DecorationStyle) -> (Box<draw::DrawFunction>, bool, ansi_term::Style) {
+        let k = 1u8;
+        (
+            Box::new(move |w: &mut dyn std::io::Write, a: &str, b: &str, c: &str, d: &crate::cli::Width, s: Style, t: ansi_term::Style| {
+                let _ = k;
+                one_line(w, a, b, c, d, s, t)
+            }),
+            false,
+            ansi_term::Style::new(),
+        )
+    }
+    fn stub_write_to_output_buffer(_f: &str, _s: &str, _l: String, _ss: Option<StyleSectionSpecifier>, _h: &HunkHeaderIncludeHunkLabel, _p: &mut Painter, _c: &Config) {}
+    #[allow(clippy::too_many_arguments)]
+    fn stub_paint_path(_n: Option<usize>, _p: &str, _fs: &Style, _ls: &Style, _ip: &HunkHeaderIncludeFilePath, _il: &HunkHeaderIncludeLineNumber, _sep: &str, _c: &Config) -> String {
+        String::new()
+    }
+    fn stub_format(_args: std::fmt::Arguments<'_>) -> String {
+        String::new()
+    }
+    fn stub_paint_buffered<'p>(_p: &mut Painter<'p>)
+    where
+        'p: 'p,
+    {
+    }
+    fn stub_set_highlighter<'p>(_p: &mut Painter<'p>)
+    where
+        'p: 'p,
+    {
+    }
+    fn stub_emit<'p>(_p: &mut Painter<'p>) -> std::io::Result<()>
+    where
+        'p: 'p,
+    {
+        Ok(())
+    }
+
+    #[kani::proof]
+    #[kani::unwind(8)]
+    #[kani::stub(crate::handlers::draw::get_draw_function, stub_get_draw_function)]
+    #[kani::stub(write_to_output_buffer, stub_write_to_output_buffer)]
+    #[kani::stub(paint_file_path_with_line_number, stub_paint_path)]
+    #[kani::stub(std::fmt::format, stub_format)]
+    #[kani::stub(crate::paint::Painter::paint_buffered_minus_and_plus_lines, stub_paint_buffered)]
+    #[kani::stub(crate::paint::Painter::set_highlighter, stub_set_highlighter)]
+    #[kani::stub(crate::paint::Painter::emit, stub_emit)]
+    fn c02_hunk_header_line_count() {
+        let mut cfg_mem = MaybeUninit::<Config>::uninit();
+        let cp = cfg_mem.as_mut_ptr();
+        let color_only: bool = kani::any();
+        let omitted: bool = kani::any();
+        let raw: bool = kani::any();
+        let plain = Style::new();
+        unsafe {
+            addr_of_mut!((*cp).color_only).write(color_only);
+            addr_of_mut!((*cp).line_numbers).write(false);
+            addr_of_mut!((*cp).hunk_header_style).write(Style { is_omitted: omitted, is_raw: raw, decoration_style: DecorationStyle::NoDecoration, ..Style::new() });
+            addr_of_mut!((*cp).hunk_header_file_style).write(plain);
+            addr_of_mut!((*cp).hunk_header_line_number_style).write(plain);
+            addr_of_mut!((*cp).hunk_header_style_include_file_path).write(HunkHeaderIncludeFilePath::No);
+            addr_of_mut!((*cp).hunk_header_style_include_line_number).write(HunkHeaderIncludeLineNumber::No);
+            addr_of_mut!((*cp).hunk_header_style_include_code_fragment).write(HunkHeaderIncludeCodeFragment::Yes);
+            addr_of_mut!((*cp).decorations_width).write(crate::cli::Width::Variable);
+            addr_of_mut!((*cp).null_style).write(plain);
+        }
+        let config: &Config = unsafe { &*cp };
+        let mut sink: Vec<u8> = Vec::with_capacity(8);
+        let mut sm_mem = MaybeUninit::<StateMachine>::uninit();
+        let sp = sm_mem.as_mut_ptr();
+        unsafe {
+            addr_of_mut!((*sp).minus_file).write(String::new());
+            addr_of_mut!((*sp).plus_file).write(String::new());
+            addr_of_mut!((*sp).config).write(config);
+            addr_of_mut!((*sp).painter.config).write(config);
+            addr_of_mut!((*sp).painter.writer).write(&mut sink);
+            addr_of_mut!((*sp).painter.output_buffer).write(String::new());
+        }
+        let sm: &mut StateMachine = unsafe { &mut *sp };
+        let parsed = ParsedHunkHeader { code_fragment: String::new(), line_numbers_and_hunk_lengths: vec![(1, 1), (1, 1)] };
+        let r = sm.emit_hunk_header_line(&parsed, "@@ -1 +1 @@", "@@ -1 +1 @@");
+        assert!(matches!(r, Ok(true)), "hunk header handled");
+        let mut newlines = 0usize;
+        let mut i = 0;
+        while i < 4 {
+            if i < sink.len() && sink[i] == b'\n' {
+                newlines += 1;
+            }
+            i += 1;
+        }
+        assert!(sink.len() <= 4, "harness: at most a blank line and a one-line header");
+        if color_only {
+            assert!(newlines == 1, "--color-only: a hunk header line gives exactly one output line, whatever the hunk-header style");
+        } else {
+            assert!(newlines >= 1 && newlines <= 2, "otherwise: the header and/or a blank line");
+        }
+        kani::cover!(color_only && omitted && !raw, "--color-only with an omitted hunk-header style");
+        kani::cover!(color_only && raw, "--color-only with the raw hunk-header style");
+        kani::cover!(true, "end of harness reached");
+        std::mem::forget(parsed);
+        std::mem::forget(sink);
+    }
+}
